@@ -93,7 +93,7 @@ META = {
                     'inf_norm > 0 (the kernel divides by it; 0/0 is NaN in C and 0 in the exact model)',
                     'round-4 models: n = 0 is covered (vertex_coloring_jones_plassmann / _LDF return -1, cljp_naive_splitting returns at once since c2b91b3; compared exactly on the empty '
                     'graph); maximal_independent_set_k_parallel with n = 0 (addresses of elements of empty std::vectors) and symmetric_rcm / breadth_first_search on a 0x0 matrix '
-                    '(order[0] written) are reported findings that the empty-graph scenarios of the sanitizer search leave out (flags EMPTY_MISK / EMPTY_RCM); vertex_coloring_first_fit: K >= 0, no entry of x above K and the nodes coloured K separated (what a '
+                    '(order[0] written) were defects of the unchanged tree, repaired in 4c0adfe; the empty-graph scenarios of the sanitizer search include them since (flags EMPTY_MISK / EMPTY_RCM = True); vertex_coloring_first_fit: K >= 0, no entry of x above K and the nodes coloured K separated (what a '
                     'parallel-MIS pass establishes on ANY pattern: parallel_coloring_round_safe); fit_candidates: Ax holds K1*K2 values per stored index, B n_row*K1*K2, R n_col*K2^2; '
                     'approx_ideal_restriction_pass2: Rp is the output of the first pass on the same C / splitting / Cpts / distance (RpOK, proved for the pass-1 model: '
                     'approx_ideal_restriction_pass1_establishes_RpOK), Rj and Rx hold Rp[|Cpts|] entries (block version: Ax, Rx hold blocksize^2 values per entry), maxiter >= 0; '
